@@ -296,6 +296,9 @@ class Ctx:
             return False
         for g, msg in gen_failed:
             out = GEN_OUTPUT.get(g)
+            if out is None and g.startswith('gen_skel_'):
+                # convention of the tie drivers: harness/gen_skel_<name>.py writes coq/gen/Gen_Skel_<Name>.v
+                out = 'gen/Gen_Skel_%s.v' % g[len('gen_skel_'):-3].capitalize()
             if out is None or out in files:        # a translator this property's theorems depend on
                 self.problem('proof-break', g, 'translator failed closed: ' + msg, theorem='coq/%s (generated by %s)' % (out or 'gen', g))
         info['files'] = files
